@@ -154,6 +154,37 @@ def run(prog, tier, repo, crates=None):
                     res.violation(key, b.loc(), f'{b.name} recurses over {rn.split("::")[-2]}::{rn.split("::")[-1]} and visits '
                                   f'{len(have)} of its {len(slots)} child positions, but never reads `{nm[2]}` of {nm[0]}'
                                   + (f'::{nm[1]}' if nm[0] != nm[1] else '') + ': types nested there are skipped by this walker')
+    # closure clause: inside a function that recurses over R, a closure that receives the elements of a child list
+    # (`type_arguments.iter().any(|t| ...)`) hands them back to the recursion. A closure that gives them to a function outside
+    # the recursion looks only one level deep: types nested further down are not validated / substituted / searched.
+    n_clos = 0
+    for rn in ROOTS:
+        R = [a for a in prog.adts.values() if a.name == rn]
+        if len(R) != 1:
+            continue
+        R = R[0]
+        for b in sorted(prog.bodies.values(), key=lambda x: x.name):
+            if b.kind == 'closure' or not b.crate.startswith('samlang') or '::tests' in b.name:
+                continue
+            if crates is not None and b.crate not in crates:
+                continue
+            if not any(_peel(b.locals[i]).k == 'adt' and _peel(b.locals[i]).id == R.id for i in range(1, b.nargs + 1)):
+                continue
+            clos = [prog.bodies[c] for c in prog.closures_of.get(b.id, []) if c in prog.bodies]
+            if not any(b.id in body_refs(x) for x in [b] + clos):
+                continue
+            for c in clos:
+                if not any(_peel(c.locals[i]).k == 'adt' and _peel(c.locals[i]).id == R.id for i in range(2, c.nargs + 1)):
+                    continue
+                n_clos += 1
+                key = f'closure:{c.name}'
+                if any(r == b.id or b.id in reach_of(r) for r in body_refs(c)):
+                    res.ok(key, c.loc(), 'the closure hands its element back to the recursion')
+                else:
+                    res.violation(key, c.loc(), f'{b.name} recurses over {rn.split("::")[-2]}::{rn.split("::")[-1]}, but the closure at '
+                                  f'{c.loc()} that receives the elements of a child list never calls back into the recursion: nested '
+                                  f'occurrences below the first level are not looked at')
+    res.analysed['closures_receiving_elements'] = n_clos
     res.analysed['walkers'] = n_walkers
     return [res], n_walkers
 
